@@ -10,6 +10,8 @@ import Sbepp.Drive.C13
 import Sbepp.Drive.C16
 import Sbepp.Drive.C06
 import Sbepp.Drive.C18
+import Sbepp.Drive.C04
+import Sbepp.Drive.C08
 import Sbepp.Drive.Wire
 
 open Sbepp.Drive
@@ -24,6 +26,8 @@ def dispatch (line : String) : String :=
   else if line.startsWith "visit " then Wire.visit (payloadOf line "visit")
   else if line.startsWith "checked " then C06.handle (payloadOf line "checked")
   else if line.startsWith "traits " then C18.handle (payloadOf line "traits")
+  else if line.startsWith "cursor " then C04.handle (payloadOf line "cursor")
+  else if line.startsWith "verdict " then C08.handle (payloadOf line "verdict")
   else
   match (line.trimAscii.toString.splitOn " ").filter (· ≠ "") with
   | [] => ""
